@@ -2,7 +2,7 @@
 # usage: refcheck.sh [pattern]  -- run every behaviour-preserving refactoring kept under /verif/refactors (and every R fixture patch) through all
 # quick checks on scratch copies; prints only alarms. None of these may raise one.
 cd /verif
-for p in refactors/${1:-*}.diff; do
+for p in refactors/${1:-*}.diff features/${1:-*}.diff; do
   tools/allcheck.sh /verif/$p 2>&1 | grep -v "^WARNING conda" | grep -v "^done " | sed "s#^#[$p] #"
 done
 echo "refcheck finished"
